@@ -99,9 +99,12 @@ Record ghost := {
   gh_blk  : option nat;    (* a block statement ran inside such a deferred call: the activation that was running it *)
   gh_repl : bool;          (* a panic has been replaced by a panic raised in a deferred call *)
   gh_a    : bool;          (* ... blocked, and the panic was then recovered on behalf of a different activation *)
-  gh_b    : bool           (* a block statement ran inside a panicking-mode deferred call after a replacement *)
+  gh_b    : bool;          (* a block statement ran inside a panicking-mode deferred call after a replacement *)
+  gh_run  : list nat;      (* activations currently running one of their deferred calls (any mode), innermost first *)
+  gh_c    : bool           (* a block statement ran inside a panicking-mode deferred call of an activation that is itself
+                              running inside a deferred call of another activation *)
 }.
-Definition gh_init : ghost := {| gh_infl := []; gh_blk := None; gh_repl := false; gh_a := false; gh_b := false |}.
+Definition gh_init : ghost := {| gh_infl := []; gh_blk := None; gh_repl := false; gh_a := false; gh_b := false; gh_run := []; gh_c := false |}.
 
 Record sglobal := {
   s_trace : list event;       (* newest first *)
@@ -133,18 +136,20 @@ Definition s_fresh2 (g : sglobal) : nat * sglobal :=
   let '(c, g1) := s_fresh g in let '(_, g2) := s_fresh g1 in (c, g2).
 Definition s_setgh (h : ghost) (g : sglobal) : sglobal :=
   {| s_trace := s_trace g; s_cells := s_cells g; s_next := s_next g; s_gh := h |}.
-Definition gh_set_infl (l : list nat) (h : ghost) := {| gh_infl := l; gh_blk := gh_blk h; gh_repl := gh_repl h; gh_a := gh_a h; gh_b := gh_b h |}.
-Definition gh_set_blk (b : option nat) (h : ghost) := {| gh_infl := gh_infl h; gh_blk := b; gh_repl := gh_repl h; gh_a := gh_a h; gh_b := gh_b h |}.
+Definition gh_set_infl (l : list nat) (h : ghost) := {| gh_infl := l; gh_blk := gh_blk h; gh_repl := gh_repl h; gh_a := gh_a h; gh_b := gh_b h; gh_run := gh_run h; gh_c := gh_c h |}.
+Definition gh_set_blk (b : option nat) (h : ghost) := {| gh_infl := gh_infl h; gh_blk := b; gh_repl := gh_repl h; gh_a := gh_a h; gh_b := gh_b h; gh_run := gh_run h; gh_c := gh_c h |}.
+Definition gh_set_run (l : list nat) (h : ghost) := {| gh_infl := gh_infl h; gh_blk := gh_blk h; gh_repl := gh_repl h; gh_a := gh_a h; gh_b := gh_b h; gh_run := l; gh_c := gh_c h |}.
 Definition gh_on_block (h : ghost) : ghost :=
   match gh_infl h with
-  | a :: _ => {| gh_infl := gh_infl h; gh_blk := Some a; gh_repl := gh_repl h; gh_a := gh_a h; gh_b := gh_b h || gh_repl h |}
+  | a :: _ => {| gh_infl := gh_infl h; gh_blk := Some a; gh_repl := gh_repl h; gh_a := gh_a h; gh_b := gh_b h || gh_repl h; gh_run := gh_run h;
+              gh_c := gh_c h || Nat.leb 2 (length (gh_run h)) |}
   | [] => h
   end.
 Definition gh_on_recover (act : nat) (h : ghost) : ghost :=
   let fl := match gh_blk h with Some a => negb (Nat.eqb a act) | None => false end in
-  {| gh_infl := gh_infl h; gh_blk := None; gh_repl := gh_repl h; gh_a := gh_a h || fl; gh_b := gh_b h |}.
+  {| gh_infl := gh_infl h; gh_blk := None; gh_repl := gh_repl h; gh_a := gh_a h || fl; gh_b := gh_b h; gh_run := gh_run h; gh_c := gh_c h |}.
 Definition gh_on_replace (h : ghost) : ghost :=
-  {| gh_infl := gh_infl h; gh_blk := None; gh_repl := true; gh_a := gh_a h; gh_b := gh_b h |}.
+  {| gh_infl := gh_infl h; gh_blk := None; gh_repl := true; gh_a := gh_a h; gh_b := gh_b h; gh_run := gh_run h; gh_c := gh_c h |}.
 
 Fixpoint spec_exec (fuel : nat) (p : program) (cell : nat) (ss : list stmt) (l : slocal) (g : sglobal)
   {struct fuel} : option (soutcome * slocal * sglobal) :=
@@ -223,6 +228,8 @@ with spec_defers (fuel : nat) (p : program) (act : nat) (mode : smode) (gx : boo
       let rk := match mode with MPanic v => Some v | _ => None end in
       let g := s_emit (ERun act (length dl')) g in
       let infl0 := gh_infl (s_gh g) in
+      let run0 := gh_run (s_gh g) in
+      let g := s_setgh (gh_set_run (act :: run0) (s_gh g)) g in
       let g := match mode with MPanic _ => s_setgh (gh_set_infl (act :: infl0) (s_gh g)) g | _ => g end in
       let res :=
         match d with
@@ -234,7 +241,7 @@ with spec_defers (fuel : nat) (p : program) (act : nat) (mode : smode) (gx : boo
       match res with
       | None => None
       | Some (MNormal, rk', g2) =>
-          let g2 := s_setgh (gh_set_infl infl0 (s_gh g2)) g2 in
+          let g2 := s_setgh (gh_set_run run0 (gh_set_infl infl0 (s_gh g2))) g2 in
           match mode, rk' with
           | MPanic _, None => (* recovered *)
               let g2 := s_setgh (gh_on_recover act (s_gh g2)) g2 in
@@ -242,10 +249,10 @@ with spec_defers (fuel : nat) (p : program) (act : nat) (mode : smode) (gx : boo
           | _, _ => spec_defers fuel' p act mode gx dl' g2
           end
       | Some (MPanic v2, _, g2) =>
-          let g2 := s_setgh (gh_set_infl infl0 (match mode with MPanic _ => gh_on_replace (s_gh g2) | _ => gh_set_blk None (s_gh g2) end)) g2 in
+          let g2 := s_setgh (gh_set_run run0 (gh_set_infl infl0 (match mode with MPanic _ => gh_on_replace (s_gh g2) | _ => gh_set_blk None (s_gh g2) end))) g2 in
           spec_defers fuel' p act (MPanic v2)
                       (match mode with MGoexit => true | _ => gx end) dl' g2
-      | Some (MGoexit, _, g2) => spec_defers fuel' p act MGoexit false dl' (s_setgh (gh_set_infl infl0 (gh_set_blk None (s_gh g2))) g2)
+      | Some (MGoexit, _, g2) => spec_defers fuel' p act MGoexit false dl' (s_setgh (gh_set_run run0 (gh_set_infl infl0 (gh_set_blk None (s_gh g2)))) g2)
       end
   end end.
 
@@ -263,10 +270,10 @@ Definition spec_run (fuel : nat) (p : program) : option (list event * final) :=
   end.
 
 (* did the run contain the situations that delimit the two findings about suspension? *)
-Definition spec_blockflags (fuel : nat) (p : program) : bool * bool :=
+Definition spec_blockflags (fuel : nat) (p : program) : bool * bool * bool :=
   match spec_fun fuel p 0 wrapper None s_init with
-  | Some (_, _, g) => (gh_a (s_gh g), gh_b (s_gh g))
-  | None => (false, false)
+  | Some (_, _, g) => (gh_a (s_gh g), gh_b (s_gh g), gh_c (s_gh g))
+  | None => (false, false, false)
   end.
 
 (* ============================================================ ImplPanic == *)
